@@ -143,6 +143,8 @@ class ConnGen:
             return ['fd', d.int(0, 64)]
         if t == 'object':
             oid = self.pick_obj(d, pa.interface, allow_dead=d.chance(0.15))
+            if oid is not None and any(oid == p[0] for p in pending):
+                oid = None          # the id is being handed out again by this very message: a mention would be ambiguous
             if oid is None:
                 return ['obj', pa.interface, None] if pa.allow_null else None
             if pa.allow_null and d.chance(0.25):
@@ -152,7 +154,7 @@ class ConnGen:
             if pa.interface is None:
                 return None
             oid = self.alloc_server(d) if is_event else self.alloc_client(d)
-            if any(oid == p[0] for p in pending):
+            if any(oid == p[0] for p in pending) or any(a[0] == 'obj' and a[2] == oid for a in getattr(self, '_args_so_far', [])) or oid == getattr(self, '_target', None):
                 return None
             pending.append((oid, pa.interface))
             return ['new', pa.interface, oid]
@@ -160,8 +162,10 @@ class ConnGen:
 
     def _protocol_message(self, d, oid, iface, pm):
         pending, args = [], []
+        self._target = oid
         save = (dict(self.live), dict(self.dead), self.next_client, self.next_server, dict(self.gens))
         for pa in pm.args:
+            self._args_so_far = args
             a = self.arg(d, pa, pm.is_event, pending, iface)
             if a is None:
                 self.live, self.dead, self.next_client, self.next_server, self.gens = save
@@ -213,10 +217,12 @@ class ConnGen:
             elif k == 6: args.append(['uint', d.choice(U32)])
             elif k == 7:
                 o = self.pick_obj(d, None, allow_dead=d.chance(0.2))
+                if any(a[0] == 'new' and a[2] == o for a in args):
+                    continue
                 args.append(['obj', self.iface_of(o), o] if d.chance(0.8) else ['obj', 'wl_x', None])
             else:
                 i = self.alloc_server(d) if is_event else self.alloc_client(d)
-                if any(a[0] == 'new' and a[2] == i for a in args):
+                if any(a[0] in ('new', 'obj') and a[2] == i for a in args) or i == oid:
                     continue
                 t = d.choice(['my_child', 'wl_buffer', 'wl_callback'])
                 args.append(['new', t, i])
